@@ -59,7 +59,8 @@ pub fn slots_ok(o: &Obs) -> bool {
 }
 
 pub fn obs_json(o: &Obs, buf: &[u8], kind: u8) -> String {
-    let hs: Vec<String> = if o.st == ST_C {
+    // very long header lists are summarised by their count (hcount)
+    let hs: Vec<String> = if o.st == ST_C && o.exposed.len() <= 2000 {
         o.exposed
             .iter()
             .map(|h| {
@@ -80,7 +81,7 @@ pub fn obs_json(o: &Obs, buf: &[u8], kind: u8) -> String {
         vec![]
     };
     format!(
-        "\"st\":{},\"n\":{},\"err\":{},\"m\":{},\"p\":{},\"v\":{},\"c\":{},\"r\":{},\"h\":[{}],\"digits\":[{}],\"panicked\":{},\"allocs\":{},\"slots_ok\":{}",
+        "\"st\":{},\"n\":{},\"err\":{},\"m\":{},\"p\":{},\"v\":{},\"c\":{},\"r\":{},\"h\":[{}],\"digits\":[{}],\"panicked\":{},\"allocs\":{},\"slots_ok\":{},\"hcount\":{}",
         o.st,
         o.n,
         o.err,
@@ -93,7 +94,8 @@ pub fn obs_json(o: &Obs, buf: &[u8], kind: u8) -> String {
         digits.join(","),
         o.panicked,
         o.allocs,
-        slots_ok(o) as u8
+        slots_ok(o) as u8,
+        if o.st == ST_C { o.exposed.len() } else { 0 }
     )
 }
 
@@ -110,7 +112,7 @@ pub fn random_message(rng: &mut StdRng, kind: u8, maxhdr: usize) -> Vec<u8> {
     }
     match kind {
         K_REQ => {
-            let m: &[&[u8]] = &[b"GET", b"POST", b"PUT", b"OPTIONS", b"X-y", b"GE", b"POSTX"];
+            let m: &[&[u8]] = &[b"GET", b"POST", b"PUT", b"OPTIONS", b"X-y", b"GE", b"POSTX", b"CONNECT", b"DELETE", b"PATCH", b"HEAD", b"PROPFIND", b"options"];
             b.extend_from_slice(m[rng.gen_range(0..m.len())]);
             b.push(b' ');
             if rng.gen_bool(0.1) {
@@ -120,6 +122,9 @@ pub fn random_message(rng: &mut StdRng, kind: u8, maxhdr: usize) -> Vec<u8> {
             let n = rng.gen_range(0..60);
             for _ in 0..n {
                 b.push(rng.gen_range(0x21u8..0x7f));
+            }
+            if rng.gen_bool(0.3) {
+                b.extend_from_slice(b"?q=%20a&b=c#frag/");
             }
             if rng.gen_bool(0.2) {
                 b.extend_from_slice("é✓𐍈".as_bytes());
@@ -170,10 +175,23 @@ pub fn random_message(rng: &mut StdRng, kind: u8, maxhdr: usize) -> Vec<u8> {
         }
         _ => {}
     }
-    let nh = rng.gen_range(0..maxhdr);
+    const NAMES: [&[u8]; 12] = [b"Host", b"Content-Length", b"content-length", b"Transfer-Encoding", b"Connection", b"Cookie",
+        b"Accept", b"User-Agent", b"X-Forwarded-For", b"Content-Type", b"ETag", b"TE"];
+    const VALUES: [&[u8]; 12] = [b"0", b"12", b"12, 12", b"+5", b"chunked", b"keep-alive", b"example.org:8080", b"text/html; charset=utf-8",
+        b"a=b; c=d", b"W/\"xyz\"", b"Mon, 05 Oct 2026 00:00:00 GMT", b"gzip, deflate;q=0.5"];
+    let nh = if rng.gen_bool(0.1) { rng.gen_range(0..4 * maxhdr.max(1)) } else { rng.gen_range(0..maxhdr) };
     for _ in 0..nh {
         if rng.gen_bool(0.05) {
             b.push(b' ');
+        }
+        if rng.gen_bool(0.4) {
+            // a realistic header line
+            b.extend_from_slice(NAMES[rng.gen_range(0..NAMES.len())]);
+            b.push(b':');
+            if rng.gen_bool(0.8) { b.push(b' '); }
+            b.extend_from_slice(VALUES[rng.gen_range(0..VALUES.len())]);
+            eol(rng, &mut b);
+            continue;
         }
         let nlen = rng.gen_range(1..24);
         b.extend(tok(rng, nlen));
@@ -351,6 +369,23 @@ fn long_inputs(rng: &mut StdRng, thorough: bool) -> Vec<(u8, u8, usize, Vec<u8>)
         if rng.gen_bool(0.5) { h.extend_from_slice(b"tail"); }
         v.push((K_HDRS, 0, cap, h));
     }
+    // heads made of minimal header lines (3 bytes each), array exactly as long as the line count,
+    // nothing after the head; and more header lines than any fixed small limit
+    for (n, cap) in [(24usize, 24usize), (200, 200), (40000, 40000), (33000, 33001)] {
+        if n > 1000 && !thorough && n != 40000 { continue; }
+        let mut h: Vec<u8> = Vec::new();
+        for _ in 0..n { h.extend_from_slice(b"a:\n"); }
+        h.push(b'\n');
+        let mut b = b"GET / HTTP/1.1\n".to_vec();
+        b.extend_from_slice(&h);
+        v.push((K_REQ, 0, cap, b));
+        if n <= 1000 {
+            let mut b = b"HTTP/1.1 200\n".to_vec();
+            b.extend_from_slice(&h);
+            v.push((K_RESP, 0, cap, b));
+        }
+        v.push((K_HDRS, 0, cap, h));
+    }
     // random long messages
     for _ in 0..(if thorough { 60 } else { 12 }) {
         let kind = if rng.gen_bool(0.5) { K_REQ } else { K_RESP };
@@ -379,12 +414,20 @@ pub fn cmd_call(args: &[String]) {
         let w = &mut ws[k % shards];
         let buf = arena.place(data, Place::End);
         let real_cap = (*cap).min(MAX_SLOTS - 4);
+        if data.len() > (3 << 20) - 8192 { continue; }
         let o = run(entry_of(*kind), *cfg, buf, real_cap);
         writeln!(w, "{{\"ev\":\"begin\",\"kind\":{},\"cfg\":{},\"cap\":{},\"len\":{}}}", kind, cfg, real_cap, data.len()).unwrap();
         for ch in data.chunks(256) {
             writeln!(w, "{{\"ev\":\"bytes\",\"b\":[{}]}}", ch.iter().map(|x| x.to_string()).collect::<Vec<_>>().join(",")).unwrap();
         }
-        writeln!(w, "{{\"ev\":\"end\",{}}}", obs_json(&o, buf, *kind)).unwrap();
+        // the other entry points of the kind (plain parse, uninitialised array): same call, same result
+        let mut disagree = 0;
+        for &e in entries_of(*kind, *cfg == 0) {
+            if e == entry_of(*kind) { continue; }
+            let o2 = run(e, *cfg, buf, real_cap);
+            if crate::judge::same_result(&o, buf, &o2, buf).is_some() { disagree += 1; }
+        }
+        writeln!(w, "{{\"ev\":\"end\",{},\"entries\":{}}}", obs_json(&o, buf, *kind), disagree).unwrap();
         bytes_total += data.len();
     }
     println!("{{\"calls\":{},\"bytes\":{}}}", inputs.len(), bytes_total);
@@ -620,14 +663,22 @@ pub fn cmd_scan(args: &[String]) {
                         } else {
                             vec![(0, 0)]
                         };
+                        // a second, in-class high byte exactly one word / one 16-byte lane away (code that
+                        // folds two lanes or words into one test before looking for the offender)
+                        if p > 0 && n >= 16 && n < 127 && (thorough || n % 7 == 3) {
+                            for d in [8usize, 16] {
+                                if p + d <= n { seconds.push((p + d, 0x80)); }
+                                if p > d { seconds.push((p - d, 0xff)); }
+                            }
+                        }
                         // long buffers: a second byte one, two or three vector widths away, both an
                         // offending one and an in-class high one (unrolled loops combine blocks)
                         if n >= 127 {
                             if fill != 97 || (!thorough && p % 3 != 1) { continue; }
                             if p > 0 {
-                                for d in [32usize, 64, 96] {
+                                for d in [16usize, 32, 64, 96] {
                                     if p + d <= n { seconds.push((p + d, 0x80)); if thorough || d == 64 { seconds.push((p + d, 0x7f)); } }
-                                    if p > d && (thorough || d == 64) { seconds.push((p - d, 0xff)); }
+                                    if p > d && (thorough || d == 64 || d == 16) { seconds.push((p - d, 0xff)); }
                                 }
                             }
                         }
